@@ -153,6 +153,15 @@ func (c *Cluster) Unready(ns, name string) bool {
 	})
 }
 
+// Break makes a started pod not Ready for good (a crash-looping container): KubeletProgress will not heal it.
+func (c *Cluster) Break(ns, name string) bool {
+	if c.Broken == nil {
+		c.Broken = map[string]bool{}
+	}
+	c.Broken[ns+"/"+name] = true
+	return c.Unready(ns, name)
+}
+
 // Restart records one container restart (restartCount++, lastState.terminated at now).
 func (c *Cluster) Restart(ns, name string, container int, reason string) bool {
 	c.tracef("pod restart %s/%s c=%d reason=%s", ns, name, container, reason)
@@ -277,6 +286,7 @@ func (c *Cluster) KubeletProgress() {
 		case p.DeletionTimestamp != nil:
 			c.Finalize(p.Namespace, p.Name)
 		case p.Status.Phase == corev1.PodFailed || p.Status.Phase == corev1.PodUnknown:
+		case c.Broken[p.Namespace+"/"+p.Name]:
 		default:
 			node := PinnedNode(p)
 			if node == "" || c.Node(node) == nil {
